@@ -204,3 +204,13 @@ def tiling(cx):
 def run(cx):
     _run1(cx)
     tiling(cx)
+
+
+_run_c1 = run
+
+
+def run(cx):
+    from .C19 import from_byte
+    _run_c1(cx)
+    # decoding of C1 (both encodings): tag, length, coordinate range and root selection
+    from_byte(cx)
